@@ -120,7 +120,9 @@ def classify_site(call: ast.Call, fn: ast.FunctionDef) -> tuple[bool, str]:
             return True, "prefix of the rest of the line"
         return False, f"text starts at {lo} but the span is {sc}..{ec}"
     # P7: a fixed delimiter emitted at the current position, which the code before has moved to end - len(delimiter)
-    if s in ("endprog.quote",) or (isinstance(s_expr, ast.Constant) and isinstance(s_expr.value, str) and len(s_expr.value) == 1):
+    def one_char(e):
+        return isinstance(e, ast.Constant) and isinstance(e.value, str) and len(e.value) == 1
+    if s in ("endprog.quote",) or one_char(s_expr) or (isinstance(s_expr, ast.IfExp) and one_char(s_expr.body) and one_char(s_expr.orelse)):
         width = "len(endprog.quote)" if s == "endprog.quote" else "1"
         if not (same_line and sc == "state.pos" and ec == "end"):
             return False, f"delimiter of width {width} but the span is {sc}..{ec}"
@@ -130,7 +132,7 @@ def classify_site(call: ast.Call, fn: ast.FunctionDef) -> tuple[bool, str]:
         from ..pyflow import Index as _Index
         if fn.name != "handle_fstring_progs":
             return False, "a fixed delimiter outside handle_fstring_progs"
-        me = _boundaries(fn, norm_stmt(call))
+        me = _boundaries(fn, call)
         # a local that names an access path at the top of the function (`endprog = state.end_progs[-1]`) and the path itself are
         # the same thing to this comparison: copy propagation may have expanded one side and (correctly) not the other
         aliases = {norm_stmt(st.value): st.targets[0].id for st in fn.body
@@ -149,7 +151,11 @@ def _boundaries(fn: ast.FunctionDef, call_text: str) -> set[str]:
     from ..fprogs import _inline_flags
     from ..pyflow import stmt_paths
     out: set[str] = set()
-    for p in stmt_paths(_inline_flags(fn), split_bool=True):
+    inlined = _inline_flags(fn)
+    if isinstance(call_text, ast.Call):      # the call as it reads once the branch flags are inlined
+        call_text = next((norm_stmt(c) for st in inlined for c in ast.walk(st) if isinstance(c, ast.Call)
+                          and (c.lineno, c.col_offset) == (call_text.lineno, call_text.col_offset)), norm_stmt(call_text))
+    for p in stmt_paths(inlined, split_bool=True):
         if not any(x[0] == "do" and call_text in x[1] for x in p):
             continue
         env: dict[str, str] = {}
@@ -587,17 +593,28 @@ def rule_l3(chk: Check, ix: Index):
     chk.count("L3-coverage")
     ok_tests = {"state.pos == state.max or state.in_fstring()", "not match or not match.lastgroup", "match.lastgroup == 'End'", "token_type"}
     elif_none = []
-    for n in ast.walk(f.node):
-        if isinstance(n, ast.If):
-            if any(isinstance(s, ast.Return) and norm_stmt(s) == "return None" for s in n.body) and norm_stmt(n.test) not in ok_tests:
-                elif_none.append(norm_stmt(n.test))
-        if isinstance(n, ast.If) and norm_stmt(n.test) == "match.lastgroup == 'StringStart'":
-            for s in ast.walk(n):
-                if isinstance(s, ast.Return) and norm_stmt(s) == "return None":
-                    # non-f string start: must have started an accumulation at the token's own start
-                    blk = [norm_stmt(x) for x in n.body[-1].orelse] if isinstance(n.body[-1], ast.If) else []
-                    if not any(x.startswith("state.add_prog(start, end") for x in blk):
-                        elif_none.append("StringStart without add_prog(start, end, …)")
+    # every quiet exit (`return None`) after the match is either the whole body's reason (its `if` test is one of the known
+    # no-token cases) or follows, in its own block, the start of an accumulation at the token's own start
+    def blocks(node):
+        for fld in ("body", "orelse", "finalbody"):
+            blk = getattr(node, fld, None)
+            if isinstance(blk, list) and blk and isinstance(blk[0], ast.stmt):
+                yield node, fld, blk
+                for st in blk:
+                    yield from blocks(st)
+    for owner, fld, blk in blocks(f.node):
+        for i, st in enumerate(blk):
+            if not (isinstance(st, ast.Return) and norm_stmt(st) == "return None"):
+                continue
+            if isinstance(owner, ast.If) and fld == "body" and norm_stmt(owner.test) in ok_tests:
+                continue
+            if any(norm_stmt(x).startswith("state.add_prog(start, end") for x in blk[:i]):
+                continue
+            if isinstance(owner, ast.FunctionDef) and i and isinstance(blk[i - 1], ast.If) and norm_stmt(blk[i - 1].test) in ("token_type", "token_type is not None") \
+                    and blk[i - 1].body and isinstance(blk[i - 1].body[-1], ast.Return):
+                continue     # the fall-through of the final `if token_type: return <token>`
+            test = norm_stmt(owner.test) if isinstance(owner, ast.If) else "?"
+            elif_none.append(("not " if fld == "orelse" else "") + test + " without add_prog(start, end, …)")
     chk.require(not elif_none, "L3-coverage", "next_psuedo_matches:silent-advance", f.where,
                 f"the position advances without a token being produced or an accumulation being started under {elif_none}: "
                 f"those characters are lost")
